@@ -8,9 +8,9 @@ func init() {
 		Quick:     append(append(grid(rng(0, 2), rng(0, 9), []int64{0}), grid([]int64{2}, rng(0, 9), []int64{1})...), []int64{11, 0, 0}, []int64{11, 0, 1}),
 		Thorough:  append(grid(rng(0, 3), rng(0, 9), []int64{0}), grid(rng(0, 2), rng(0, 9), []int64{1})...),
 		Unwind:    40, LoopBounds: fileLoopBounds,
-		Desc:      "one request to each REST v1 handler (list, show, source, mark-seen, delete, purge) and web UI handler (message, source, html, attachment) over the real StoreManager + memory store holding m messages; name from a menu of aliases of the mailbox / another mailbox / an invalid name, id from {1,2,latest,9,\"\"}; status <=> existence, payload and effects == store",
-		Bounds:    "params (messages m, handler number, back-end 0 memory / 1 file store over the file-system model); symbolic name, id, request body of mark-seen",
-		Assumes:   []string{"gorilla/mux routing, net/http, encoding/json and enmime are models/stubs: handlers are called with the route variables already extracted; JSON values are compared before encoding (natively: after decoding the real JSON)", "base-path prefixing and URL-significant characters through the router are outside the claim"},
+		Desc:    "one request to each REST v1 handler (list, show, source, mark-seen, delete, purge) and web UI handler (message, source, html, attachment) over the real StoreManager + memory store holding m messages; name from a menu of aliases of the mailbox / another mailbox / an invalid name, id from {1,2,latest,9,\"\"}; status <=> existence, payload and effects == store",
+		Bounds:  "params (messages m, handler number, back-end 0 memory / 1 file store over the file-system model); symbolic name, id, request body of mark-seen",
+		Assumes: []string{"gorilla/mux routing, net/http, encoding/json and enmime are models/stubs: handlers are called with the route variables already extracted; JSON values are compared before encoding (natively: after decoding the real JSON)", "base-path prefixing and URL-significant characters through the router are outside the claim"},
 	})
 }
 
